@@ -917,10 +917,10 @@ theorem inv_nvDelegate {s s' : St} {c sd : Addr} {vo : Bool} {d : Denom} {amt : 
   split at h; · simp at h
   rename_i hb
   split at h; · simp at h
+  rename_i hneg
+  split at h; · simp at h
   rename_i dv df htd
   split at h; · simp at h
-  split at h; · simp at h
-  rename_i hneg
   split at h; · simp at h
   obtain ⟨b1, hb1, h⟩ := Bank.bind_ok h
   obtain ⟨b2, hb2, h⟩ := Bank.bind_ok h
